@@ -126,6 +126,9 @@ impl Check for C06 {
             }
             let a_ok = matches!(&a, HeaderResult::V1(Ok(_)) | HeaderResult::V2(Ok(_)));
             let mut fail: Option<(&'static str, String)> = None;
+            // The oracle is the property's statement, clause by clause, and nothing more: in
+            // particular it does not say which tag or variant a *terminal* error carries, nor
+            // that an incomplete error must be the v2 parser's own value.
             if r2.is_ok() && r1.is_ok() {
                 fail = Some((
                     "both_parsers_accept",
@@ -152,46 +155,56 @@ impl Check for C06 {
                         ))
                     }
                 }
-            } else if r2.is_incomplete() {
-                st.hit("probe:v2_incomplete");
+            } else if r1.is_ok() {
+                st.hit("probe:v1_accept");
                 match &a {
-                    HeaderResult::V2(x) if *x == r2 && a.is_incomplete() => {}
+                    HeaderResult::V1(x) if *x == r1 => {}
                     _ => {
                         fail = Some((
-                            "possible_v2_handed_to_text_parser",
-                            format!(
-                                "v2 reports {:?} (incomplete) but auto reports {}",
-                                r2.as_ref().err(),
-                                describe(&a)
-                            ),
+                            "v1_header_not_returned_unchanged",
+                            "v1 accepts but auto does not return V1 with the same header".into(),
                         ))
                     }
                 }
             } else {
-                // v2 failed terminally: the verdict is the text parser's
-                if r1.is_ok() {
-                    st.hit("probe:v1_accept");
+                // nobody accepts: incomplete exactly when v2 is incomplete, or v2 is terminal
+                // and v1 is incomplete; otherwise terminal
+                let want_incomplete = r2.is_incomplete() || r1.is_incomplete();
+                if r2.is_incomplete() {
+                    st.hit("probe:v2_incomplete");
                 } else if r1.is_incomplete() {
                     st.hit("probe:fallthrough_v1_incomplete");
                 } else {
                     st.hit("probe:fallthrough_v1_terminal");
                 }
-                match &a {
-                    HeaderResult::V1(x) if *x == r1 && a.is_incomplete() == r1.is_incomplete() => {}
-                    _ => {
-                        fail = Some((
-                            "v1_verdict_not_returned_unchanged",
-                            format!(
-                                "v2 fails terminally ({:?}), v1 says {}, auto says {}",
-                                r2.as_ref().err(),
-                                match &r1 {
-                                    Ok(_) => "Ok".to_string(),
-                                    Err(e) => format!("{:?}", e),
-                                },
-                                describe(&a)
-                            ),
-                        ))
-                    }
+                if a.is_incomplete() != want_incomplete {
+                    fail = Some((
+                        if want_incomplete {
+                            "terminal_where_incomplete_expected"
+                        } else {
+                            "incomplete_where_terminal_expected"
+                        },
+                        format!(
+                            "v2 says {:?}, v1 says {}, auto says {} (incomplete: {})",
+                            r2.as_ref().err(),
+                            match &r1 {
+                                Ok(_) => "Ok".to_string(),
+                                Err(e) => format!("{:?}", e),
+                            },
+                            describe(&a),
+                            a.is_incomplete()
+                        ),
+                    ));
+                } else if r2.is_incomplete() && matches!(&a, HeaderResult::V1(_)) {
+                    // still a possible v2 header: the verdict must not be the text parser's
+                    fail = Some((
+                        "possible_v2_handed_to_text_parser",
+                        format!(
+                            "v2 reports {:?} (incomplete) but auto answers with the text parser's {}",
+                            r2.as_ref().err(),
+                            describe(&a)
+                        ),
+                    ));
                 }
             }
             // completeness flags of the tagged result must be those of the inner result
